@@ -89,6 +89,7 @@ type Finding struct {
 	Class     string   `json:"class"`               // exact class, or prefix if it ends with '*'
 	Witnesses []string `json:"witnesses,omitempty"` // a violating case must contain one of these (check-specific containment: substring of the case text)
 	Exact     bool     `json:"exact,omitempty"`     // witnesses must equal the case text instead of being contained
+	AllOf     []string `json:"all_of,omitempty"`    // every one of these must be contained in the case text (in this order)
 	Summary   string   `json:"summary"`
 }
 
@@ -124,12 +125,25 @@ func (f *Finding) Matches(v *Viol) bool {
 	} else if f.Class != v.Class {
 		return false
 	}
-	if len(f.Witnesses) == 0 {
+	if len(f.Witnesses) == 0 && len(f.AllOf) == 0 {
 		return true // identified by class (call site) alone
 	}
 	text := v.FindText
 	if text == "" {
 		text = string(v.Case.Bytes())
+	}
+	if len(f.AllOf) > 0 {
+		rest := text
+		for _, w := range f.AllOf {
+			i := strings.Index(rest, w)
+			if i < 0 {
+				return false
+			}
+			rest = rest[i+len(w):]
+		}
+		if len(f.Witnesses) == 0 {
+			return true
+		}
 	}
 	for _, w := range f.Witnesses {
 		if f.Exact {
